@@ -306,15 +306,107 @@ def run_batch(ctx, bodies, tag='b', maxinv=MAXINV):
     return res
 
 
+# --------------------------------------------------------------------------- independent oracle: the body as ONE sequential program
+class _Done(Exception):
+    def __init__(self, code): self.code = code
+
+
+class _Cut(Exception):
+    pass
+
+
+class _Diverge(Exception):
+    pass
+
+
+def reference(body, maxinv=MAXINV):
+    """written from the property text, independent of the Lean model: run the body sequentially; a blocking point
+    emits its return code and (unless inside a PT_CALL, which swallows it) hands control to the main loop (tick++);
+    a spawn runs the child inline and relays its codes; stop after `maxinv` return codes."""
+    v, tick, ev, cnt, steps = [0] * NVAR, [1], [], [0], [0]
+
+    def cond(c):
+        k = c[0]
+        if k == 'lt': return v[c[1]] < c[2]
+        if k == 'odd': return v[c[1]] & 1 == 1
+        if k == 'tickge': return tick[0] >= c[1]
+        if k == 'incmod': v[c[1]] += 1; return v[c[1]] % (c[2] + 1) == 0
+        if k == 'postincge': v[c[1]] += 1; return v[c[1]] - 1 >= c[2]
+        if k == 'not': return not cond(c[1])
+        raise ValueError(c)
+
+    def top(code):
+        ev.append('r%d' % code); cnt[0] += 1
+        if cnt[0] >= maxinv: raise _Cut()
+        tick[0] += 1
+
+    def fun(body, relay):
+        """-> 2 (exited) or 3 (failed)"""
+        res = [2]
+        def blk(code):
+            relay(code); res[0] = 2          # pt_spawn_res is a fresh local after every re-entry
+        def ex(s):
+            k = s[0]
+            steps[0] += 1
+            if steps[0] > 200000: raise _Diverge()
+            if k == 'skip': pass
+            elif k == 'eff': ev.append('e%d' % s[1]); v[s[1] % 4] += 1
+            elif k == 'seq':
+                for x in s[1]: ex(x)
+            elif k == 'if': ex(s[2] if cond(s[1]) else s[3])
+            elif k == 'while':
+                while cond(s[1]): ex(s[2])
+            elif k == 'yield': blk(0)
+            elif k == 'wait': blk(1)
+            elif k == 'wu':
+                while not cond(s[1]):
+                    steps[0] += 1
+                    if steps[0] > 200000: raise _Diverge()
+                    blk(1)
+            elif k == 'exit': raise _Done(2)
+            elif k == 'fail': raise _Done(3)
+            elif k == 'exiton':
+                if cond(s[1]): raise _Done(2)
+            elif k == 'failon':
+                if cond(s[1]): raise _Done(3)
+            elif k in ('spawn', 'spawnck'):
+                res[0] = fun(s[1], relay)
+                if k == 'spawnck' and res[0] == 3: raise _Done(3)
+            elif k == 'call': fun(s[1], lambda code: None)
+            elif k == 'childok': ex(s[1] if res[0] != 3 else s[2])
+            else: raise ValueError(s)
+        try:
+            ex(body); return 2
+        except _Done as d:
+            return d.code
+
+    try:
+        ev.append('r%d' % fun(body, top))
+    except _Cut:
+        pass
+    except _Diverge:
+        return ['!! diverges']          # only shrunk candidates can do this (a loop that lost its counter bump)
+    return ev
+
+
 def flat(lines):
     """events only: the `@<pt>` annotations (value of *pt after the invocation) are a model-level observation"""
     return [w for l in lines for w in l.split() if not w.startswith('@')]
 
 
-def judge(r):
+def judge(r, body=None):
     """'ok' | 'violation' (implementation differs from the body run as one sequential program) |
-       'model' (implementation = sequential program but the model's per-invocation log differs) | 'fuel'"""
+       'model' (implementation = sequential program but the model's per-invocation log differs) |
+       'spec' (the Lean sequential run differs from the independent Python one) | 'fuel'"""
     impl, inv, seq, _ = r
+    if body is not None:
+        ref = reference(body)
+        if ref == ['!! diverges']:
+            return 'fuel'
+        if flat(impl) != ref:
+            return 'violation'
+        if seq != ref and seq != ['fuel']:
+            return 'spec'
     if inv == ['fuel'] or seq == ['fuel']:
         return 'fuel'
     if flat(impl) != seq:
@@ -354,13 +446,13 @@ def reductions(s):
         yield ('skip',)
 
 
-def shrink(ctx, body, bad=lambda r: judge(r) == 'violation', rounds=40):
+def shrink(ctx, body, bad=lambda c, r: judge(r, c) == 'violation', rounds=40):
     for _ in range(rounds):
         cands = list(reductions(body))[:300]
         if not cands:
             break
         rs = run_batch(ctx, cands, tag='s')
-        hit = [c for c, r in zip(cands, rs) if bad(r)]
+        hit = [c for c, r in zip(cands, rs) if bad(c, r)]
         if not hit:
             break
         body = min(hit, key=nstmts)
@@ -383,9 +475,10 @@ def c_source(body):
 
 
 def report(ctx, body, what, model_only=False):
-    small = shrink(ctx, body, bad=(lambda r: judge(r) == 'model') if model_only else (lambda r: judge(r) == 'violation'))
+    small = shrink(ctx, body, bad=(lambda c, r: judge(r, c) == 'model') if model_only else (lambda c, r: judge(r, c) == 'violation'))
     r = run_batch(ctx, [small], tag='v')[0]
-    k = vlib.diff_streams(flat(r[0]), r[2])
+    exp = reference(small)
+    k = vlib.diff_streams(flat(r[0]), exp)
     if model_only:
         k = vlib.diff_streams(r[0], r[1])
         ctx.broken.append('correspondence pt: the model\'s per-invocation log (events and *pt after each invocation) differs from the implementation, '
@@ -400,7 +493,7 @@ def report(ctx, body, what, model_only=False):
     ctx.violation({'obligation': 'pt: real macros vs the body as one sequential program (' + what + ')',
                    'body': to_json(small), 'model_input': 'run %d %d %s' % (MAXINV, FUEL, r[3]),
                    'first_difference_at_event': k,
-                   'expected_events': r[2][max(0, (k or 0) - 4):(k or 0) + 4], 'observed_events': flat(r[0])[max(0, (k or 0) - 4):(k or 0) + 4],
+                   'expected_events': exp[max(0, (k or 0) - 4):(k or 0) + 4], 'lean_sequential_run': r[2][max(0, (k or 0) - 4):(k or 0) + 4], 'observed_events': flat(r[0])[max(0, (k or 0) - 4):(k or 0) + 4],
                    'observed_per_invocation': r[0][:12], 'model_per_invocation': r[1][:12],
                    'c_source': c_source(small).split('typedef pt_state_t (*fn_t)')[0].split('\n')[len(HEADER):],
                    'how_to_rerun': './check C08 --replay <this file>'},
@@ -419,7 +512,8 @@ def replay(ctx, path):
     print('implementation (per invocation):', res[0][:40])
     print('model          (per invocation):', res[1][:40])
     print('sequential program             :', ' '.join(res[2][:120]))
-    j = judge(res)
+    j = judge(res, body)
+    print('independent sequential reference:', ' '.join(reference(body)[:120]))
     print('SAME' if j == 'ok' else 'DIFFER (%s)' % j)
     return 0 if j == 'ok' else 1
 
@@ -495,7 +589,7 @@ def campaign(ctx, bodies, what, hist):
     agreed = 0
     rs = run_batch(ctx, bodies)
     for b, r in zip(bodies, rs):
-        j = judge(r)
+        j = judge(r, b)
         ctx.count(r[3], nontrivial=len(r[0]) >= 2)
         hist['invocations'] += len(r[0])
         hist['events'] += len(r[2])
@@ -505,6 +599,10 @@ def campaign(ctx, bodies, what, hist):
             agreed += 1
         elif j == 'fuel':
             hist['model_out_of_fuel'] = hist.get('model_out_of_fuel', 0) + 1
+        elif j == 'spec':
+            if not any('sequential run' in x for x in ctx.broken):
+                ctx.broken.append('spec pt: the Lean sequential run (seqRun) differs from the independent sequential reference on body ' + r[3][:300]
+                                  + ': lean=%s reference=%s' % (r[2][:12], reference(b)[:12]))
         elif j == 'violation':
             if not ctx.violations:
                 report(ctx, b, what)
@@ -554,7 +652,7 @@ def Emit_tokens(body):
 REQUIRED += ['Librfn.C08.' + t for t in (
     'resume_is_residual', 'invocations_concat', 'return_codes', 'spawn_restarts_child', 'spawn_resumes_child', 'spawn_relays',
     'spawn_continues', 'child_ok_reflects', 'spawn_and_check_reflects', 'call_runs_to_completion', 'invoke_good',
-    'pt_always_label_or_zero')]
+    'pt_always_label_or_zero', 'invoke_is_residual', 'invocations_concat_any_fuel')]
 META['level_text'] = (
     'Lean 4 theorems (kernel-only, no bv_decide) over a deep embedding of protothread bodies (effects, seq, if, while, PT_YIELD, PT_WAIT, PT_WAIT_UNTIL, PT_EXIT(_ON), '
     'PT_FAIL(_ON), PT_SPAWN, PT_SPAWN_AND_CHECK, PT_CALL, PT_CHILD_OK; side-effecting conditions; children to any depth) for ALL bodies with one macro per line '
@@ -566,5 +664,6 @@ META['level_text'] = (
 META['level_note'] = (
     'Trusted: Lean kernel (propext, Classical.choice, Quot.sound); the hand model of protothreads.h (lean/Librfn/Model/PT.lean), validated each run against gcc-compiled bodies using the '
     'real macros (sampling); gcc\'s switch/case semantics; invocations_concat is stated for sequential runs that finish within the fuel (a diverging body has no trace); the sequential '
-    'program is the same evaluator run from the start with a budget of blocking points to pass (it never jumps to a case label in that mode); each PT_SPAWN/PT_CALL site has its own '
+    'program (seqTrace) is the same evaluator run from the start with a budget of blocking points to pass (it never jumps to a case label in that mode) and is compared on every body '
+    'with an independent sequential interpreter written in Python from the property text (sampling); each PT_SPAWN/PT_CALL site has its own '
     'child pt_t in the generated bodies (sharing one pt_t between sites, as tests/protothreadstest.c does, is not generated); pt_t is uint16_t so generated files stay below 65536 lines.')
